@@ -158,14 +158,14 @@ def classify_token(tok):
     if tok in ('nul', 'astral'):
         return tok
     return {'tmp': 'tmpdir', 'cwd': 'cwd', 'user': 'user', 'host': 'host',
-            'home': 'home', 'today': 'date-now', 'now': 'date-now',
+            'ip': 'host-address', 'home': 'home', 'today': 'date-now', 'now': 'date-now',
             'euro': 'date-now', 'usdate': 'date-now',
             'baddate': 'numtriple', 'version': 'numtriple',
             'olddate': 'numtriple', 'nodate': 'numtriple',
             'time': 'time'}.get(tok, 'text')
 
 
-_PRIORITY = ['big', 'line-boundary-char', 'nul', 'astral', 'tmpdir', 'cwd', 'home', 'host', 'user', 'date-now', 'time',
+_PRIORITY = ['big', 'line-boundary-char', 'nul', 'astral', 'tmpdir', 'cwd', 'home', 'host-address', 'host', 'user', 'date-now', 'time',
              'numtriple']
 
 
